@@ -26,6 +26,9 @@ func (k Keeper) BeginBlocker(ctx context.Context) error {
 			err = k.ExecuteStartedStatus(ctx, auction)
 		case types.AuctionStatusVesting:
 			err = k.ExecuteVestingStatus(ctx, auction)
+		case types.AuctionStatusFinished, types.AuctionStatusCancelled:
+			// Terminal statuses require no further processing.
+			err = nil
 		default:
 			err = fmt.Errorf("invalid auction status %s", auction.GetStatus())
 		}
